@@ -101,6 +101,7 @@ type Explorer struct {
 	Steps     int64
 	Viol      []*Violation
 	violCount map[string]int
+	firstViol time.Time
 	KFSeen    map[string]*Violation
 	Incon     []string // reasons the run is inconclusive
 	Stats     SolverStats
@@ -229,6 +230,9 @@ func (ex *Explorer) worker(id int) {
 			if ex.violCount[key] <= ex.Limits.MaxViolPerLb {
 				ex.Viol = append(ex.Viol, v)
 			}
+			if ex.firstViol.IsZero() {
+				ex.firstViol = time.Now()
+			}
 		}
 		if len(ex.Samples) < 6 && (res.Asserts > 0 || len(res.Violations) > 0) {
 			var ds []string
@@ -259,6 +263,12 @@ func (ex *Explorer) worker(id int) {
 		}
 		if ex.Paths >= ex.Limits.MaxPaths && len(ex.queue) > 0 {
 			ex.Incon = append(ex.Incon, fmt.Sprintf("limit: path budget %d exhausted with %d prefixes pending", ex.Limits.MaxPaths, len(ex.queue)))
+			ex.stop = true
+		}
+		if !ex.firstViol.IsZero() && time.Since(ex.firstViol) > 45*time.Second && len(ex.queue) > 0 && !ex.stop {
+			// the check fails anyway: do not spend the whole budget on a tree
+			// that already produced counterexamples
+			ex.Incon = append(ex.Incon, "limit: exploration stopped 45 s after the first counterexample")
 			ex.stop = true
 		}
 		if !ex.Limits.Deadline.IsZero() && time.Now().After(ex.Limits.Deadline) && (len(ex.queue) > 0 || ex.active > 0) {
